@@ -47,6 +47,8 @@ def _alt(cmd):
     """cargo path override: the harness crates name /repo/core and /repo/eval"""
     if ALT and cmd[0] == "cargo":
         i = 2 if cmd[1].startswith("+") else 1
+        if cmd[i] == "miri":
+            i += 2  # `cargo miri run --config ..`: cargo-miri forwards it; in front of `miri` it is dropped
         cmd = cmd[:i] + ["--config", f'paths=["{REPO}/core","{REPO}/eval"]'] + cmd[i:]
     return cmd
 
